@@ -162,7 +162,9 @@ class Recorder(object):
                 res = rec._orig(m, T, P, Sa, Ta, status)
             finally:
                 rec._in -= 1
-            rec.lib.append(((margs, float(T), float(P), float(Sa), float(Ta), int(status)), res))
+            # the wrapper edits the returned arrays in place (beta[...] = 0.): keep a private copy
+            kept = tuple(np.array(v, dtype=float, copy=True) if isinstance(v, np.ndarray) else v for v in res)
+            rec.lib.append(((margs, float(T), float(P), float(Sa), float(Ta), int(status)), kept))
             return res
 
         def density(T, S, P):
@@ -230,12 +232,20 @@ def sbm_case(rng, profiles, rows_cap=500):
     us = us_estimate(kind, de)
     zlo = max(50., prf.z_min + 1.)
     zhi = min(3500., prf.z_max - 1.)
-    if 1209600. / delta_t > rows_cap:
-        # the 14-day cap alone does not bound the rows: bound the rise time instead
-        zhi = min(zhi, max(zlo, rows_cap * delta_t * us))
-        if zlo / us / delta_t > rows_cap:
-            delta_t = min(1000., zlo / us / rows_cap)
-    z0 = math.exp(rng.uniform(math.log(zlo), math.log(max(zhi, zlo))))
+    if rng.random() < 0.5:
+        # depth first: any depth of the range, the maximum step is enlarged until the run fits the budget
+        z0 = math.exp(rng.uniform(math.log(zlo), math.log(zhi)))
+        if min(z0 / us, 1209600.) / delta_t > rows_cap:
+            delta_t = min(1000., z0 / us / rows_cap)
+        if min(z0 / us, 1209600.) / delta_t > rows_cap:
+            z0 = max(zlo, rows_cap * delta_t * us)
+    else:
+        # step first: any maximum step of the range, the depth is limited so that the run fits the budget
+        if 1209600. / delta_t > rows_cap:
+            zhi = min(zhi, max(zlo, rows_cap * delta_t * us))
+            if zlo / us / delta_t > rows_cap:
+                delta_t = min(1000., zlo / us / rows_cap)
+        z0 = math.exp(rng.uniform(math.log(zlo), math.log(max(zhi, zlo))))
     dT = rng.choice([None, None, rng.uniform(0.3, 30.), rng.uniform(0., 1.)])
     K = rng.choice([1., 1., 0., rng.uniform(0., 10.)])
     K_T = rng.choice([1., 1., 0., rng.uniform(0., 10.)])
@@ -246,6 +256,20 @@ def sbm_case(rng, profiles, rows_cap=500):
     y0 = rng.choice([0., rng.uniform(-100., 100.)])
     return dict(profile=name, descr=descr, z0=z0, x0=x0, y0=y0, de=de, dT=dT, K=K, K_T=K_T, fdis=fdis,
                 t_hyd=t_hyd, lag_time=lag_time, delta_t=delta_t, obj=obj, yk=yk, prf=prf)
+
+
+def sbm_cap_case(rng, profiles):
+    """a slow, deep, tiny inert drop with the largest step: rises ~2 mm/s, so the 14-day cap
+    (t > 1209600 s) ends the run after ~1210 stored rows (cheap: no equation of state)"""
+    from tamoc import dbm
+    deep = [p for p in profiles if p[1].z_max >= 3400.]
+    name, prf = rng.choice(deep)
+    p = dict(isfluid=True, iscompressible=True, rho_p=930., gamma=rng.uniform(24., 30.), beta=7e-4, co=2.9e-9,
+             k_bio=0., t_bio=0., fp_type=1)
+    obj = dbm.InsolubleParticle(True, True, rho_p=p['rho_p'], gamma=p['gamma'], beta=p['beta'], co=p['co'])
+    return dict(profile=name, descr=dict(kind='inert', **p), z0=rng.uniform(3200., min(3500., prf.z_max - 1.)), x0=0., y0=0.,
+                de=rng.uniform(0.2e-3, 0.22e-3), dT=None, K=1., K_T=rng.choice([1., 0.]), fdis=1e-6, t_hyd=0.,
+                lag_time=True, delta_t=1000., obj=obj, yk=np.array([1.]), prf=prf)
 
 
 class BudgetExceeded(Exception):
